@@ -90,7 +90,7 @@ def extra_c11(seed, tier, log):
     for prof in ("mixed", "rebuild_finish", "rebuild"):
         for _ in range(n_for(tier, 3, 15)):
             for _try in range(20):
-                s = gen.gen_scenario(rng.randrange(10**9), prof)
+                s = gen.gen_scenario(rng.randrange(10**9), prof, dict(p_late=0.0))
                 if len(s["events"]) >= 2:
                     scns.append(s)
                     break
@@ -139,7 +139,9 @@ def _gen_many(seed, tier, tag, profiles, nq, nt, pred=None, overrides=None):
     for prof in profiles:
         for _ in range(n_for(tier, nq, nt)):
             for _try in range(30):
-                s = gen.gen_scenario(rng.randrange(10**9), prof, overrides)
+                # the differential runs derive twins from the scenario: late registration (which names
+                # events by position) is exercised by the shared suite and by extra_c10 only
+                s = gen.gen_scenario(rng.randrange(10**9), prof, dict(overrides or {}, p_late=(overrides or {}).get("p_late", 0.0)))
                 if pred is None or pred(s):
                     out.append(s)
                     break
@@ -189,6 +191,61 @@ def extra_c18(seed, tier, log):
                 failures.append(_fail("C18", a, f"order variants differ in an event-free run: {diffs[0]}", sig="alt-noalt-differ"))
     return dict(failures=failures, evaluations=len(jobs), scenarios=scenarios, obligations=[],
                 samples=[dict(kind="psi=1,tau=dt vs base (bitwise); alt vs noalt event-free (1e-9)", pairs=len(meta))])
+
+
+def extra_c10(seed, tier, log):
+    """Events registered while the simulation is running, before they occur (add_events / add_event
+    after some manual steps), behave exactly as if they had been registered from the start
+    (theorem C10_late_registration on the implementation: bitwise equal records and final books)."""
+    from harness import gen
+    scns, rng = _gen_many(seed, tier, "c10", ["mixed", "rebuild", "recover", "rebuild_finish"], 3, 12,
+                          pred=lambda s: len(s["events"]) >= 2, overrides=dict(p_late=0.0))
+    jobs, meta = [], []
+    n_active = 0
+    for s in scns:
+        # the event occurring last is registered late, as late as possible; the others from the start
+        order = sorted(range(len(s["events"])), key=lambda i: s["events"][i]["occ"])
+        a = copy.deepcopy(s)
+        a["events"] = [s["events"][i] for i in order]
+        a["sim"].pop("late", None)
+        jobs.append((a, {}))
+        meta.append((a, None))
+        for api in ("add_events", "add_event"):
+            first = rng.randint(1, len(order) - 1)
+            late = gen.late_registration(rng, a["events"], a["model"]["dt"], first=first)
+            if not late:
+                continue
+            late["api"] = api
+            b = copy.deepcopy(a)
+            b["sim"]["late"] = late
+            b["id"] = a["id"] + f"-late{first}-{api}"
+            jobs.append((b, {}))
+            meta.append((a, b))
+            if late["k"] * a["model"]["dt"] >= a["events"][0]["occ"]:
+                n_active += 1
+    res = run_many(jobs)
+    failures, scenarios = [], {}
+    base = {}
+    for (a, b), tr in zip(meta, res):
+        if b is None:
+            base[a["id"]] = tr
+            scenarios[a["id"]] = a
+    def books(tr):
+        return [(t_["status"], t_["rid"], None if t_["dmg"] is None else t_["dmg"].tobytes(),
+                 None if t_["rem_i"] is None else t_["rem_i"].tobytes()) for t_ in tr.get("trackers") or []]
+    for (a, b), tr in zip(meta, res):
+        if b is None:
+            continue
+        scenarios[b["id"]] = b
+        diffs = compare_runs(base[a["id"]], tr, bitwise=True)
+        if not diffs and base[a["id"]].get("error") is None and books(base[a["id"]]) != books(tr):
+            diffs = ["final statuses / books of the events differ"]
+        if diffs:
+            failures.append(_fail("C10", b, f"events registered with {b['sim']['late']['api']} after {b['sim']['late']['k']} steps (before they occur) "
+                                  f"do not behave as when registered from the start: {diffs[0]}", sig="late-registration-differs"))
+    return dict(failures=failures, evaluations=len(jobs), scenarios=scenarios, obligations=[],
+                samples=[dict(kind="late registration (add_events / add_event after k manual steps) vs registration from the start, bitwise",
+                              pairs=len(jobs) - len(base), with_an_event_already_under_way=n_active)])
 
 
 def extra_c19(seed, tier, log):
@@ -1034,8 +1091,15 @@ def extra_c13(seed, tier, log):
             f = lam if name in MON else 1.0
             xs, ys = np.nan_to_num(x.astype(float)) * f, np.nan_to_num(y.astype(float))
             m = float(max(np.abs(xs).max(), np.abs(ys).max())) if xs.size else 0.0
+            floor = m * 1e-2
+            if name == "final_demand_unmet":
+                # a difference of two nearly equal quantities (demand - deliveries): its rounding-level
+                # deviations are measured against the final demand it is derived from
+                fd = (tb.get("records") or {}).get("final_demand")
+                if fd is not None:
+                    floor = max(floor, float(np.nanmax(np.abs(fd.astype(float)))))
             tol = (1e-6 if kind == "scale" else 1e-7) + slack
-            if not np.all(np.abs(xs - ys) <= tol * np.maximum(np.maximum(np.abs(xs), np.abs(ys)), m * 1e-2)):
+            if not np.all(np.abs(xs - ys) <= tol * np.maximum(np.maximum(np.abs(xs), np.abs(ys)), floor)):
                 idx = np.unravel_index(int(np.argmax(np.abs(xs - ys))), xs.shape)
                 what = (f"the same event expressed with monetary factor {par} gives a different simulation"
                         if kind == "unit" else f"scaling table and impacts by {par} does not scale the results")
